@@ -20,7 +20,7 @@ RNext == /\ Next
                     ELSE Append(hist, [a |-> pc', name |-> cur', subs |-> subsv', verdict |-> verdict', s |-> Proj(s')])
 
 Complete == pc = "idle" /\ trials = MaxTrials
-Emit == Complete => PrintT("@@" \o ToJson([driver |-> setup.driver, ctx |-> setup.ctx, tmplLen |-> setup.tmplLen,
+Emit == Complete => PrintT("@@" \o ToJson([driver |-> setup.driver, ctx |-> setup.ctx, tmplLen |-> setup.tmplLen, fixcom |-> setup.fixcom,
                                           mobj |-> setup.mobj, moves |-> setup.moves, hist |-> hist]))
 RSpec == RInit /\ [][RNext]_rvars
 =============================================================================
